@@ -761,6 +761,11 @@ def scenario_job(jid, fam, sc, explore, battery=True, age=True, followup=None):
         b2 = [op("set", "k6", hash="1", sec="2"), op("set", "k7", hash="3", sec="4"), op("get", key, **hs)]
         stages.append(seq_stage(part(3, cache, with_vals(b2, 3), ALWAYS, shard_script=[1, 0, 1, 0, 1, 0])))
     cfg = {"roots": roots_of(cache), "front": cache["kind"], "scenario": name}
+    wc = cache.get("writer", cache) if cache["kind"] == "stack" else cache
+    if isinstance(wc, dict) and "cap" in wc:
+        cfg["cap"] = wc["cap"]
+        if wc.get("kind") == "sharded":
+            cfg["shardcap"] = (wc["cap"] + wc["shards"] - 1) // wc["shards"]
     if cache["kind"] == "stack":
         cfg["autosync"] = True
     return job(jid, stages, cfg, explore, fam=fam)
@@ -831,14 +836,22 @@ def check_C18(work):
     def key_of(job, mon, ev, evs):
         inj = (evs[0].get("cfg") or {}).get("inject") or {}
         return "%s@%s@%s:%s" % (mon, job.get("fam"), inj.get("call", "none"), inj.get("errno", ""))
-    st = trace_check(work, out, jobs, mons, tag="c18", key_of=key_of)
+    # conform=True: every fault-injected run must also be a path of Kismet.tla (whose control flow is total over call results)
+    st = trace_check(work, out, jobs, mons, tag="c18", key_of=key_of, conform=True)
+    # behaviours of Kismet.tla with one failing call (position uniform over the behaviour), replayed into the real library
+    st = add_replay(work, out, st, ["DirValid", "NoLeak", "HandleContentOK", "Immutable", "DebrisConfined"], Q(150, 1500),
+                    names=["RPfault", "RPfaultsh", "RPfaulte", "RPfault2", "RPfaults"])
+    design = design_runs(work, out, Q(["MCfault1", "MCfault2"], ["MCfault1", "MCfault2", "MCfault3"]))
     ms = st.get("mstats", {})
     cov = dict(evaluations=st["runs"], distinct_nontrivial=ms.get("injected", 0),
                rule="for each scenario (operation x front end x pre-state, incl. sharded key-in-alternate-shard): one clean run, then one run per library system call "
                     "of the operation x errno plausible for that call class, with the call skipped and failed by the tracer (orig_rax=-1, rax=-errno); then the same "
                     "operation and a lookup are re-issued by a fresh process. distinct_nontrivial = runs in which the injected call was really reached.",
                samples=st["samples"][:3], scenarios=[s[0] for s in scs], monitors=mons, trace_events_validated=st["events"],
-               states=st["states"], fsmodel_mismatches=st["fsmodel_mismatches"], monitor_antecedents=ms)
+               states=st["states"], fsmodel_mismatches=st["fsmodel_mismatches"], monitor_antecedents=ms,
+               model_conformant=(len(st.get("drifts", [])) == 0), ops_conforming_to_Kismet_tla=st.get("conf_ops", 0),
+               model_behaviours_replayed=st.get("replay"),
+               design_level=[dict(cfg=d["cfg"], states=d["states"], transitions=d["transitions"], ok=d["ok"], never_taken=d.get("never_taken", [])) for d in design])
     return finish("C18", out, t0, "fault_enumeration", cov, BASE_ASSUME + ["one fault per run"])
 
 
